@@ -96,6 +96,18 @@ def solve_checks(ctx, node, case, collect):
     alg = make_alg(case["alg"], case["tol"], n, single=ref.eps > 1e-10)
     shape = (n, ) if case["cols"] == 0 else (n, case["cols"])
     b = P.operand(case["seed"], shape, case["bdt"], "normal")
+    if b.ndim == 2 and b.shape[1] == 3 and case["seed"] % 2 == 0:
+        # heterogeneous columns: the solution is judged column by column (a block-wide norm hides a tiny column that an
+        # iterative solver stopped iterating on too early)
+        b = (b * np.array([1e-6, 1.0, 1e6])[None, :]).astype(b.dtype)
+        if case["alg"] in ("CG", "GMRES", "Auto", "omitted") and n > 1:
+            # ... and the large column is an eigenvector (an iterative solver is done with it after one step, long before the
+            # tiny generic column has converged)
+            w, V = np.linalg.eig(ref.M.astype(complex))
+            ev = V[:, int(np.argmax(np.abs(w)))]
+            ev = ev.real if (b.dtype.kind != "c" and np.abs(ev.imag).max() < 1e-12) else ev
+            if b.dtype.kind == "c" or not np.iscomplexobj(ev):
+                b[:, 2] = (1e6 * ev / max(np.linalg.norm(ev), 1e-300)).astype(b.dtype)
     bw = R._wide(b)
     xs = np.linalg.solve(ref.M, bw)
     rules0 = dict(DISPATCH.rules)
@@ -110,7 +122,10 @@ def solve_checks(ctx, node, case, collect):
     bound = bounds(case, ref, cond, iterative, case["alg"])
 
     def rel(x, want):
-        return float(np.linalg.norm(np.asarray(x) - want) / max(np.linalg.norm(want), 1e-300))
+        x, want = np.asarray(x), np.asarray(want)
+        if x.ndim == 2 and x.shape == want.shape and x.shape == bw.shape:  # right-hand-side blocks: worst column
+            return float(np.max(np.linalg.norm(x - want, axis=0) / np.maximum(np.linalg.norm(want, axis=0), 1e-300)))
+        return float(np.linalg.norm(x - want) / max(np.linalg.norm(want), 1e-300))
 
     x = ctx.call(lambda: Ainv @ b)
     if is_err(x):
